@@ -342,7 +342,7 @@ func (propC14) Gen(r *Rng, run uint64, tier string) *Plan {
 			case kind == FaultCut && fr.Bool(0.4):
 				f.ErrKind = "unexpected"
 			case kind == FaultReadError:
-				f.ErrKind = []string{"", "", "deadline", "closed"}[fr.Intn(4)]
+				f.ErrKind = []string{"", "", "deadline", "closed", "with_data"}[fr.Intn(5)]
 			}
 			p.Tags["pos"] = class
 			p.Tags["frame"] = fmt.Sprint(fi)
@@ -505,7 +505,7 @@ func (propC14) Expand(t *testing.T, p *Plan) []*Plan {
 			if off == len(l.Data) {
 				class = "end"
 			}
-			out = append(out, mk(Fault{Kind: FaultReadError, Container: oc.ID, Open: oc.OpenIdx, Offset: off}, class, nil))
+			out = append(out, mk(Fault{Kind: FaultReadError, Container: oc.ID, Open: oc.OpenIdx, Offset: off, ErrKind: []string{"", "with_data", "deadline"}[p.Run%3]}, class, nil))
 		}
 		for fi := range l.Ends {
 			for _, fk := range frameKindsAll {
